@@ -537,8 +537,10 @@ Definition associate_re (x : str) : option str :=
   | None => try (snd (span is_space x))
   end.
 
-(* END_RE.match with group 1 = "associate":  ^end\s{0,}associate(?:\s+(\w.{0,}))?$ *)
-Definition end_associate_re (x : str) : bool :=
+(* END_RE.match with group 1 = "associate":  ^(?:[0-9]+\s+)?end\s{0,}associate(?:\s+(\w.{0,}))?$
+   (an END statement may carry a statement label; without the label group "end" would have to start
+   on a digit, so the label is stripped whenever there is one) *)
+Definition end_associate_core (x : str) : bool :=
   if starts_ci (s "end") x then
     let x1 := snd (span is_space (skipn 3 x)) in
     if starts_ci (s "associate") x1 then
@@ -551,6 +553,8 @@ Definition end_associate_re (x : str) : bool :=
       end
     else false
   else false.
+
+Definition end_associate_re (x : str) : bool := end_associate_core (strip_label x).
 
 Definition call_gate (line : str) : bool :=
   negb (is_nil (call_matches line)) || match subcall_match line with Some _ => true | None => false end.
